@@ -22,7 +22,7 @@ RULE = (
     "break, strikethrough, html in heading / table / footnote / directive body / quote / list / substitution value / included "
     "file; include plain/literal/code, csv-table :file:, eval-rst include / csv-table / raw :file:, figure, image, code-block) each "
     "with its own sentinel, rendered under the four combinations of raw_enabled x file_insertion_enabled; distinct by hash "
-    "of (construct sequence, containers); non-trivial = >= 2 sentinel constructs"
+    "of (construct sequence, containers); every construct also inside a Markdown fragment that an rST host document includes with ':parser: myst_parser.docutils_' (raw disabled); non-trivial = >= 2 sentinel constructs"
 )
 ASSUME = [
     "anchored in the docutils front end (Parser.parse post-processing, MockIncludeDirective); Sphinx's parser does not implement the raw filter and is not claimed",
